@@ -9,5 +9,6 @@ int main(int argc, char **argv) {
     RUN("publisher_string_values", 1, true, scn::publisher_string_values(o, R, o.cases));
     RUN("publisher_mt", o.threads, true, scn::publisher_mt(o, R, T, o.cases));
     RUN("publisher_two_publishers", o.threads, true, scn::publisher_two_publishers(o, R, T, o.cases / 2 + 1));
+    RUN("publisher_lag_mt", 2, true, scn::publisher_lag_mt(o, R, T, o.cases));
     return 0;
 }
